@@ -4,6 +4,7 @@ from ..core import RuleResult, need
 from ..facts import callee, op_place, op_local, place_fields
 from ..origins import Origins
 from .. import absint as AI
+from .. import flatten
 
 VERDICT_FNS = ("ucg::do_validate", "ucg::do_compile", "ucg::visit_ucg_files")
 
@@ -180,6 +181,21 @@ def verdict_functions(F):
     return verdict
 
 
+def verdict_closures(F, verdict):
+    """closures that call a verdict function (directly or through a nested closure)"""
+    out = set()
+    changed = True
+    while changed:
+        changed = False
+        for n, fn in F.fns.items():
+            if "{closure" not in n or n in out:
+                continue
+            if any(callee(t) in verdict for b, t in fn.calls()) or any(c in out for c in _closures_made(fn)):
+                out.add(n)
+                changed = True
+    return out
+
+
 def _closures_made(fn):
     return [rv["closure"] for b, j, pl, rv, m in fn.assigns() if rv["k"] == "agg" and rv.get("adt") == "{closure}"]
 
@@ -229,7 +245,9 @@ def _show(v):
 def _link(F, r, fn, site, forced, kind_out, key, what, c, opaque):
     """one obligation: when `site` yields `forced` (once, any visit), every outcome of fn is negative"""
     sb = site[1]
-    sim = AI.Sim(F, site=site, forced=forced, tainted_by=_taint(F, fn, sb) if sb is not None and site[0] == fn.name else None, opaque=opaque)
+    sim = AI.Sim(F, site=site, forced=forced, tainted_by=_taint(F, F.fn(site[0]), sb) if sb is not None else None, opaque=opaque)
+    if F.__dict__.get("_vclosures") is None:
+        F.__dict__["_vclosures"] = verdict_closures(F, verdict_functions(F))
     try:
         res = sim.run(fn, [AI.U] * fn.nargs)
     except AI.Lossy as e:
@@ -238,11 +256,14 @@ def _link(F, r, fn, site, forced, kind_out, key, what, c, opaque):
     reached = any(f for f, v, o in res) or any(f for f, c2, n2, b2 in sim.exit_codes)
     if bad and sim.lossy:
         need(False, "%s: the verdict passes through %s, which is not modelled" % (key, sorted({x[2] for x in sim.lossy})[0]))
+    if not reached and sim.lossy:
+        need(False, "%s: the verdict passes through %s, which is not modelled" % (key, sorted({x[2] for x in sim.lossy})[0]))
     if not reached and not bad:
         # the negative value never leaves the function through a return or an exit: it diverges (panic) or the site is dead
-        r.inst(key, fn.where(sb) if sb is not None else fn.where(), True, "no outcome after %s (the path ends in a panic or loop)" % what, nontrivial=False)
+        r.inst(key, fn.where(sb) if sb is not None and site[0] == fn.name else fn.where(), True,
+               "no outcome after %s (the path ends in a panic or loop)" % what, nontrivial=False)
         return
-    r.inst(key, fn.where(sb) if sb is not None else fn.where(), not bad,
+    r.inst(key, fn.where(sb) if sb is not None and site[0] == fn.name else fn.where(), not bad,
            "%s forces the caller's verdict on every path" % what if not bad else
            "verdict dropped: after %s from %s, %s %s" % (what, c.split("::")[-1], fn.name, sorted(set(bad))[0]),
            {"outcomes": sorted({_show(v) for f, v, o in res if f})[:6], "exit_codes": sorted({_show(c2) for f, c2, n2, b2 in sim.exit_codes if f})})
@@ -272,13 +293,20 @@ def r57(F):
                 _link(F, r, fn, (fn.name, b), forced, kind_out, key + suffix, what, c, opaque)
             if "{closure" in fn.name:
                 _consumption(F, r, fn, key)
-        # closures that carry a verdict are consumed by this function
+        # closures that carry a verdict are consumed by this function: the call inside the closure is forced and the
+        # enclosing function is evaluated through the iterator adaptors that invoke the closure
         for cn in _closures_made(fn):
             if cn in roots:
-                key = "%s->%s" % (fn.name, cn.split("::")[-1] if cn.startswith(fn.name) else cn)
+                cf = F.fn(cn)
                 need(kind_out is not None, "%s returns %s: not a verdict type this rule understands" % (fn.name, fn.local_ty(0)))
-                for suffix, forced in _negatives(roots[cn])[:1]:
-                    _link(F, r, fn, (cn, None), forced, kind_out, key + ":consumed", "a negative result of the closure", cn, opaque)
+                for b2, t2 in cf.calls():
+                    c2 = callee(t2)
+                    if c2 not in roots:
+                        continue
+                    key = "%s->%s->%s" % (fn.name, cn.split("::")[-1] if cn.startswith(fn.name) else cn, c2)
+                    for suffix, forced in _negatives(roots[c2]):
+                        what = {"": "a negative result", ":Err": "an Err"}[suffix]
+                        _link(F, r, fn, (cn, b2), forced, kind_out, key + suffix + ":consumed", what + " inside the closure", c2, opaque)
     return r
 
 
@@ -357,31 +385,35 @@ def r58(F):
     return r
 
 
+def _labels_through_helpers(F, fn, o, op, depth=2):
+    labs = set(o.of_operand(op))
+    return labs
+
+
 def r59(F):
     r = RuleResult("R59", "every assert is recorded",
-                   "in Builtins::assert every path to a return passes record_assert_result; malformed shapes pass false; "
-                   "record_assert_result counts on both edges and clears success on the false edge only", floor=6)
-    fn = F.fn("ucglib::build::opcode::runtime::Builtins::assert")
+                   "in Builtins::assert (private helpers spliced in) every path to a return passes record_assert_result; malformed "
+                   "shapes pass false; record_assert_result leaves `success` equal to (old success AND is_success) for all four "
+                   "combinations (evaluated, not pattern-matched) and counts on every path", floor=5)
+    fn = flatten.flat(F, "ucglib::build::opcode::runtime::Builtins::assert", keep=("record_assert_result",))
     rec = [(b, t) for b, t in fn.calls() if callee(t).endswith("::record_assert_result")]
     need(rec, "no record_assert_result call in Builtins::assert")
     rb = {b for b, _ in rec}
     ok = util.must_pass(fn, 0, rb, exits=cfg.exits(fn))
     r.inst("Builtins::assert:all-paths", fn.where(), ok,
            "every return path records a result" if ok else "a return path records no assertion result",
-           {"record_sites": len(rec)})
+           {"record_sites": len(rec), "spliced": flatten.spliced(fn)})
     # polarity of each record site: constant false for the malformed-shape sites, the `ok` payload for the real one
-    n_const_false = 0
     n_dynamic = 0
+    o = Origins(fn)
     for b, t in rec:
         a = t["args"][2]
         if a.get("int") == "0":
-            n_const_false += 1
             r.inst("Builtins::assert:record", fn.where(b), True, "malformed assertion recorded as failure (const false)")
         elif a.get("int") == "1":
             r.inst("Builtins::assert:record", fn.where(b), False, "assertion recorded as success unconditionally (const true)")
         else:
             n_dynamic += 1
-            o = Origins(fn)
             labs = o.of_operand(a)
             has_not = ("un", "Not") in labs
             from_bool = ("variant", "Bool") in labs
@@ -391,10 +423,7 @@ def r59(F):
                    {"labels": sorted(map(str, labs))[:12]})
     need(n_dynamic >= 1, "no dynamic record site")
     # the `ok` payload is taken from the field named "ok"
-    consts = set()
-    for b, j, pl, rv, meta in fn.assigns():
-        pass
-    strs = set()
+    strs = set(util.str_consts(fn))
     for b, t in fn.calls():
         for a in t["args"]:
             if "str" in a:
@@ -406,28 +435,30 @@ def r59(F):
     r.inst("Builtins::assert:field-names", fn.where(), "ok" in strs and "desc" in strs,
            "field names compared: ok, desc" if "ok" in strs and "desc" in strs else "field-name constants ok/desc not found",
            {"strings": sorted(s for s in strs if len(s) < 8)})
-    # AssertCollector::record_assert_result
+    # AssertCollector::record_assert_result: success' = success AND is_success, by evaluation
     rf = F.fn("ucglib::build::AssertCollector::record_assert_result")
-    sw = util.bool_switches(rf, 3)
-    need(len(sw) >= 1, "no switch on is_success in record_assert_result")
-    succ_false = set()
-    for b, j, pl, rv, meta in rf.assigns():
-        if place_fields(pl)[-1:] == ["success"] and rv["k"] == "use" and rv["ops"][0].get("int") == "0":
-            succ_false.add(b)
-    succ_true = set()
-    for b, j, pl, rv, meta in rf.assigns():
-        if place_fields(pl)[-1:] == ["success"] and not (rv["k"] == "use" and rv["ops"][0].get("int") == "0"):
-            succ_true.add(b)
-    sb, ft, tt = sw[0]
-    stop = util.ipdom(rf, sb)
-    false_region = util.region(rf, ft, stop)
-    true_region = util.region(rf, tt, stop)
-    ok1 = util.must_pass(rf, ft, succ_false, exits=cfg.exits(rf))
-    ok2 = not (true_region & succ_false)
-    ok3 = not succ_true
-    r.inst("AssertCollector::record_assert_result:success", rf.where(), ok1 and ok2 and ok3,
-           "success cleared on the false edge only, never set back" if ok1 and ok2 and ok3 else
-           "success flag handling broken (cleared on false edge: %s; untouched on true edge: %s; never re-set: %s)" % (ok1, ok2, ok3))
+    need(rf.nargs == 3 and rf.local_ty(3) == "bool", "record_assert_result(&mut self, msg, is_success: bool) expected")
+    key = (1, ("*", ("f", "success")))
+    wrong, unknown = [], []
+    for old in (True, False):
+        for cur in (True, False):
+            sim = AI.Sim(F)
+            try:
+                res = sim.run(rf, [AI.U, AI.U, ("b", cur)], init={key: ("b", old)})
+            except AI.Lossy as e:
+                need(False, "record_assert_result: %s" % e)
+            need(res, "record_assert_result never returns")
+            for fired, v, outs in res:
+                got = dict(outs).get(key, AI.U)
+                want = ("b", old and cur)
+                if got == AI.U:
+                    unknown.append((old, cur))
+                elif got != want:
+                    wrong.append("success=%s, is_success=%s -> success=%s" % (str(old).lower(), str(cur).lower(), str(got[1]).lower()))
+    need(not unknown or wrong, "record_assert_result: the new value of `success` could not be evaluated for %s" % unknown[:2])
+    r.inst("AssertCollector::record_assert_result:success", rf.where(), not wrong,
+           "success' = success AND is_success in all four cases" if not wrong else
+           "success flag handling broken: %s" % "; ".join(sorted(set(wrong))))
     # counter incremented on all paths
     cnt = set()
     for b, j, pl, rv, meta in rf.assigns():
@@ -441,72 +472,54 @@ def r59(F):
 
 def r60(F):
     r = RuleResult("R60", "verdict polarity",
-                   "do_validate returns false on the assert_results()==false edge and on the Err edge, true otherwise; "
-                   "the exit status is 1 iff ok is false; FileBuilder::assert_results returns the collector's success flag",
-                   floor=6)
-    dv = F.fn("ucg::do_validate")
-    ret_false = set(util.blocks_assigning_const(dv, 0, 0))
-    ret_true = set(util.blocks_assigning_const(dv, 0, 1))
-    need(ret_false and ret_true, "do_validate does not assign constant verdicts")
-    ar = [(b, t) for b, t in dv.calls() if callee(t) == "ucglib::build::FileBuilder::assert_results"]
-    need(len(ar) == 1, "expected one assert_results call in do_validate, found %d" % len(ar))
-    b, t = ar[0]
-    sw = util.bool_switches(dv, t["dest"]["l"])
-    need(sw, "assert_results() is not tested in do_validate")
-    for sb, ft, tt in sw:
-        ok_f = util.must_pass(dv, ft, ret_false, exits=cfg.exits(dv)) and not (cfg.reachable(dv, ft) & ret_true)
-        ok_t = util.must_pass(dv, tt, ret_true, exits=cfg.exits(dv)) and not (cfg.reachable(dv, tt) & ret_false)
-        r.inst("do_validate:assert_results=false", dv.where(sb), ok_f,
-               "returns false" if ok_f else "failed assertions do not yield a false verdict (polarity)")
-        r.inst("do_validate:assert_results=true", dv.where(sb), ok_t,
-               "returns true" if ok_t else "passing assertions do not yield a true verdict (polarity)")
-    bf = [(b, t) for b, t in dv.calls() if callee(t) == "ucg::build_file"]
-    need(len(bf) == 1, "expected one build_file call in do_validate")
-    esw = util.enum_switches(dv, bf[0][1]["dest"]["l"])
-    need(esw, "build_file result not matched in do_validate")
-    for sb, st in esw:
-        et = cfg.switch_edge(st, variant="Err")
-        ok = util.must_pass(dv, et, ret_false, exits=cfg.exits(dv)) and not (cfg.reachable(dv, et) & ret_true)
-        r.inst("do_validate:build Err", dv.where(sb), ok, "returns false" if ok else "a build error does not yield a false verdict")
-    # do_compile
-    dc = F.fn("ucg::do_compile")
-    cf = set(util.blocks_assigning_const(dc, 0, 0))
-    ct = set(util.blocks_assigning_const(dc, 0, 1))
-    bf = [(b, t) for b, t in dc.calls() if callee(t) == "ucg::build_file"]
-    need(len(bf) == 1 and cf and ct, "do_compile shape")
-    for sb, st in util.enum_switches(dc, bf[0][1]["dest"]["l"]):
-        et = cfg.switch_edge(st, variant="Err")
-        okt = cfg.switch_edge(st, variant="Ok")
-        ok = util.must_pass(dc, et, cf, exits=cfg.exits(dc)) and not (cfg.reachable(dc, et) & ct)
-        ok2 = not (cfg.reachable(dc, okt) & cf)
-        r.inst("do_compile:build Err", dc.where(sb), ok, "returns false" if ok else "a build error does not yield a false verdict")
-        r.inst("do_compile:build Ok", dc.where(sb), ok2, "returns true" if ok2 else "a successful build can yield a false verdict")
-    # visit_ucg_files: result=false only on false edges
-    vf = F.fn("ucg::visit_ucg_files")
-    vblocks, cand = _verdict_blocks(vf)
-    for b, t in vf.calls():
-        if callee(t) in ("ucg::do_validate", "ucg::do_compile"):
-            for sb, ft, tt in util.bool_switches(vf, t["dest"]["l"]):
-                stop = util.ipdom(vf, sb)
-                treg = util.region(vf, tt, stop)
-                ok = not (treg & vblocks)
-                r.inst("visit_ucg_files:%s=true" % callee(t).split("::")[-1], vf.where(sb), ok,
-                       "verdict untouched on the success edge" if ok else "verdict cleared on the success edge")
-    # exit status: exit(1) iff ok false
-    for name in ("ucg::test_command", "ucg::build_command"):
-        fn = F.fn(name)
-        vb, cand = _verdict_blocks(fn)
-        oks = [l for l in cand if l != 0]
-        need(oks, "no verdict local in %s" % name)
-        for l in oks:
-            for sb, ft, tt in util.bool_switches(fn, l):
-                nz = _nonzero_exit_blocks(fn)
-                ok_f = util.must_pass(fn, ft, nz)
-                ok_t = not (cfg.reachable(fn, tt) & nz)
-                r.inst("%s:ok=false" % name, fn.where(sb), ok_f, "reaches exit(1)" if ok_f else "ok=false does not force a non-zero exit")
-                r.inst("%s:ok=true" % name, fn.where(sb), ok_t, "does not reach exit(1)" if ok_t else "ok=true can reach a non-zero exit")
+                   "where a verdict is born: do_validate is negative when assert_results() is false and when the build fails, "
+                   "do_compile when the build fails (each result forced, the function evaluated); and in the other direction: with "
+                   "every verdict positive, no function on the way to the exit status turns negative, and each can end positive; "
+                   "FileBuilder::assert_results returns the collector's success flag", floor=9)
+    verdict = verdict_functions(F)
+    opaque = set(verdict)
+    for fn in [f for n, f in F.fns.items() if (f.crate == "ucg" or n.startswith("ucg::")) and not f.derived]:
+        kind_out = _kind(fn.local_ty(0))
+        short = fn.name.split("ucg::", 1)[-1]
+        for b, t in fn.calls():
+            c = callee(t)
+            if c not in SEEDS:
+                continue
+            need(kind_out is not None, "%s returns %s: not a verdict type this rule understands" % (fn.name, fn.local_ty(0)))
+            for suffix, forced in _negatives(SEEDS[c]):
+                if c.endswith("assert_results"):
+                    key, what = "%s:assert_results=false" % short, "assert_results() == false"
+                else:
+                    key, what = "%s:build Err" % short, "a failed build"
+                _link(F, r, fn, (fn.name, b), forced, kind_out, key, what, c, opaque)
+    # the other direction
+    carriers = [n for n in verdict if n not in SEEDS]
+    for n, fn in F.fns.items():
+        if fn.derived or not (fn.crate == "ucg" or n.startswith("ucg::")) or "{closure" in n:
+            continue
+        if n not in carriers and not any(callee(t) in verdict for b, t in fn.calls()) and not any(c in verdict for c in _closures_made(fn)):
+            continue
+        if n == "ucg::main":
+            continue
+        kind_out = _kind(fn.local_ty(0))
+        force = {c: _positive(k) for c, k in verdict.items()}
+        sim = AI.Sim(F, force_all=force, opaque=opaque, watch=verdict_closures(F, verdict))
+        try:
+            res = sim.run(fn, [AI.U] * fn.nargs)
+        except AI.Lossy as e:
+            need(False, "%s: %s" % (n, e))
+        need(not sim.lossy, "%s: a verdict passes through %s, which is not modelled" % (n, sorted({x[2] for x in sim.lossy})[0] if sim.lossy else ""))
+        neg = [_show(v) for f, v, o in res if _definitely_negative_verdict(v, kind_out)]
+        neg += ["exit status %s" % _show(c2) for f, c2, n2, b2 in sim.exit_codes if c2[0] == "i" and c2[1] != 0]
+        pos = [v for f, v, o in res if not _is_negative(v, kind_out)] if kind_out != "unit" else list(res)
+        pos += [c2 for f, c2, n2, b2 in sim.exit_codes if c2 == ("i", 0)]
+        short = n.split("ucg::", 1)[-1]
+        r.inst("%s:all-pass" % short, fn.where(), not neg and bool(pos),
+               "with every verdict positive the outcome is never negative and can be positive" if not neg and pos else
+               ("with every file passing, %s still yields %s" % (n, sorted(set(neg))[0]) if neg else
+                "%s has no positive outcome at all" % n))
     # FileBuilder::assert_results returns collector.success
-    ar = F.fn("ucglib::build::FileBuilder::assert_results")
+    ar = flatten.flat(F, "ucglib::build::FileBuilder::assert_results")
     o = Origins(ar)
     labs = o.of_local(0)
     ok = ("field", "success") in labs and ("field", "assert_results") in labs and ("un", "Not") not in labs
